@@ -80,6 +80,8 @@ func main() {
 		runC08(res)
 	case "c02":
 		runC02(res)
+	case "c03":
+		runC03(res)
 	default:
 		fmt.Fprintln(os.Stderr, "unknown mode", *mode)
 		os.Exit(2)
